@@ -27,12 +27,30 @@ Definition failing := failing_ids agree ident.
    global generator) is made HERE by [pgf], proved sound w.r.t. the semantics [prun] (Props C16_source_analysis):
    [must] = no draw reaches the global generator when random_state is an int or a generator object; and the
    extracted skeleton may not be draw-free when the hand-written skeletons of that entry point draw. *)
-Definition scase := (nat * bool * pskel * list skel)%type.
+(* a fixed grid of option values (every initialisation x SVD method x mask / indices_list flag x rank below / above the mode
+   sizes): the hand-written skeleton of an entry point is evaluated on ALL of them, independently of which configurations the
+   dynamic correspondence happens to exercise *)
+Definition opt_grid : list opts :=
+  flat_map (fun ini => flat_map (fun sv => flat_map (fun mk => map (fun rk =>
+    {| o_shape := [4; 3; 5]; o_rank := rk; o_init := ini; o_svd := sv; o_mask := mk; o_nrep := 2; o_iters := 2; o_aux := 3 |})
+    [2; 6]) [false; true]) [STruncated; SSymeig; SRandomized]) [IRandom; ISvd; IUser].
+
+Definition scase := (nat * bool * pskel * list skel * option ep)%type.
 Definition agree_static (c : scase) : bool :=
-  let '(_, must, sk, models) := c in
+  let '(_, must, sk, models, oe) := c in
   (if must then pglobal_free sk else true) &&
-  implb (pdraw_free sk) (forallb draw_free models).
-Definition ident_static (c : scase) : nat := let '(i, _, _, _) := c in i.
+  implb (pdraw_free sk) (forallb draw_free models) &&
+  match oe with
+  | None => true
+  | Some e =>
+      (* out-of-range seeds: where the hand-written skeleton certainly reaches check_random_state with its own argument for
+         EVERY option value (so that C16_invalid_seed_rejected applies to the entry point), the transcribed source must do so
+         too ([pmust_check], Props C16_source_invalid_seed_rejected) *)
+      implb (forallb (fun o => must_check (skeleton e o)) opt_grid) (pmust_check sk) &&
+      (* a source without any draw => the hand-written skeleton draws under no option value *)
+      implb (pdraw_free sk) (forallb (fun o => draw_free (skeleton e o)) opt_grid)
+  end.
+Definition ident_static (c : scase) : nat := let '(i, _, _, _, _) := c in i.
 Definition failing_static := failing_ids agree_static ident_static.
 
 (* STATIC correspondence for the functions WITHOUT random choices (SVD- / user-initialised decompositions with their
